@@ -35,6 +35,18 @@ THEOREMS = [
     "NfcVerif.C06.handover_roundtrip",
     "NfcVerif.C06.handover_sequence_roundtrip",
     "NfcVerif.C06.handover_asfound_counterexample",
+    "NfcVerif.C06.handover_roundtrip_records",
+    "NfcVerif.C06.interleavings_confluent",
+    "NfcVerif.C06.interleavings_extend",
+    "NfcVerif.C06.window_never_discards",
+    "NfcVerif.C06.window_no_deadlock",
+    "NfcVerif.C06.any_window_any_schedule",
+    "NfcVerif.C06.snep_put_delivers_windowed",
+    "NfcVerif.C06.snep_oversize_rejected_windowed",
+    "NfcVerif.C06.snep_get_returns_windowed",
+    "NfcVerif.C06.handover_roundtrip_windowed",
+    "NfcVerif.C06.ack_on_receipt_loses_fragment",
+    "NfcVerif.C06.ack_all_received_loses_fragment",
 ]
 
 
@@ -430,54 +442,432 @@ def sc_json(sc):
     return j(sc)
 
 
-# ------------------------------------------------------------------ the check
-def run(ck):
-    import ndef
-    from sims import snep_ndef as ndefs
-    rng = ck.rng
-    ck.rule = ("a case is one connection: (protocol, send MIU of each side, receive limits, list of requests with "
-               "message octets and application responses), run on the real client and server code and on the model; "
-               "non-trivial = at least one message was fragmented, refused or answered with a fragmented response; "
-               "distinct by hash of the whole scenario")
-    ck.assumptions += [
-        "the data link connection is reliable, ordered and message preserving with the negotiated MIU (what C05 is about); "
-        "the full stack below it (llc, tco, dep, clf) is exercised only by the thorough-tier search, not by the theorems",
-        "ndeflib: message_decoder(message_encoder(records)) gives back records that encode to the same octets "
-        "(asserted for every generated message); a strict decode succeeds on no proper non-empty prefix of a message "
-        "(compared with the model's structural walk on every buffer state that occurs)",
-        "application callbacks return a response code 0..255 / a well-formed response message",
-        "the model equals the Python code outside the compared scenarios (D-tie is a sample)",
-    ]
-    ck.trusted += ["hand-written Lean models NfcVerif.Model.Snep / Handover / SnepChannel (state machines cut at the "
-                   "blocking socket calls), tied by differential runs",
-                   "harness/sims/snep_chan.py (fake link controller under real nfc.llcp.Socket, lockstep scheduler), "
-                   "harness/sims/snep_ndef.py, harness/props/c06.py"]
-    ck.lean("NfcVerif.Props.C06", THEOREMS)
-    if ck.thorough:
-        ck.leanchecker(["NfcVerif.Props.C06"])
-    model = Model("drv_c06")
+# ------------------------------------------------------------------ NDEF records (for the encoder tie)
+def ndef_fields(octets):
+    """independent reading of an encoded NDEF message: [(tnf, sr, type, id|None, payload)]; None if malformed"""
+    out, i, n = [], 0, len(octets)
+    while i < n:
+        f = octets[i]
+        sr, il = bool(f & 0x10), bool(f & 0x08)
+        need = 2 + (1 if sr else 4) + (1 if il else 0)
+        if i + need > n:
+            return None
+        tl = octets[i + 1]
+        pl = octets[i + 2] if sr else int.from_bytes(octets[i + 2:i + 6], "big")
+        j = i + (3 if sr else 6)
+        idl = octets[j] if il else 0
+        j += 1 if il else 0
+        if j + tl + idl + pl > n:
+            return None
+        out.append((f & 7, sr, bytes(octets[j:j + tl]), bytes(octets[j + tl:j + tl + idl]) if il else None,
+                    bytes(octets[j + tl + idl:j + tl + idl + pl]), f))
+        i = j + tl + idl + pl
+    return out
 
-    # ---------------------------------------------------------- SNEP
-    n_snep = 30000 if ck.thorough else 3000
+
+def record_ends(octets):
+    """offsets at which a record of the message ends"""
+    ends, i = [], 0
+    fs = ndef_fields(octets) or []
+    for tnf, sr, t, idb, p, f in fs:
+        i += 2 + (1 if sr else 4) + (1 + len(idb) if idb is not None else 0) + len(t) + len(p)
+        ends.append(i)
+    return ends
+
+
+def encmsg_line(octets):
+    fs = ndef_fields(octets)
+    if not fs:
+        return None
+    # MB on the first, ME on the last record only, no chunks: the shape Model/Handover.lean `encMsg` covers
+    for k, (tnf, sr, t, idb, p, f) in enumerate(fs):
+        if bool(f & 0x80) != (k == 0) or bool(f & 0x40) != (k == len(fs) - 1) or f & 0x20:
+            return None
+    return "encmsg " + " ".join("%d/%d/%s/%s/%s" % (tnf, 1 if sr else 0, hx(t), "~" if idb is None else hx(idb), hx(p))
+                                for tnf, sr, t, idb, p, f in fs)
+
+
+# ------------------------------------------------------------------ one side against an arbitrary peer
+CONT_REQ = bytes.fromhex("100000000000")
+CONT_RSP = bytes.fromhex("108000000000")
+
+
+def frags(miu, d):
+    return [d[:miu]] + [d[o:o + miu] for o in range(miu, len(d), miu)]
+
+
+def mutate_first(rng, m, maxacc, miu):
+    """hostile variations of a first fragment"""
+    m = bytearray(m)
+    k = rng.randrange(7)
+    if k == 0 and m:
+        m[0] = rng.choice([0x00, 0x0F, 0x11, 0x1F, 0x20, 0x21, 0x2F, 0xF0, 0xFF])
+    elif k == 1 and len(m) > 1:
+        m[1] = rng.choice([0, 1, 2, 3, 0x7F, 0x80, 0x81, 0xC0, 0xFF])
+    elif k == 2 and len(m) >= 6:
+        cur = int.from_bytes(m[2:6], "big")
+        v = rng.choice([0, 1, max(0, cur - 1), cur + 1, cur + miu, max(0, cur - miu), maxacc, maxacc + 1, 0xFFFFFFFF, len(m) - 6,
+                        max(0, len(m) - 7), len(m) - 5])
+        m[2:6] = (v & 0xFFFFFFFF).to_bytes(4, "big")
+    elif k == 3:
+        m = m[:rng.choice([0, 1, 2, 5, 6, 7, 9, 10, 11])]
+    elif k == 4:
+        m = m + bytes(rng.randrange(256) for _ in range(rng.choice([1, 2, 7])))
+    return bytes(m)
+
+
+def gen_rawsrv(ck, rng, ndefs):
+    smiu = rng.choice([6, 7, 8, 12, 16, 33, 64, 128])
+    cmiu = rng.choice([6, 7, 9, 16, 33, 64, 128, 300])
+    msgs, sizes = [], []
+    putc = rng.choice([0x81, 0x81, 0x81, 0xC0, 0xE0, 0])
+    getr = rng.choice([0xC0, 0xE0]) if rng.random() < 0.2 else ndefs.enc(
+        ndefs.message(rng, rng.choice([3, 5, smiu - 6 if smiu > 9 else 4, smiu - 5 if smiu > 9 else 6, 2 * smiu, 3 * smiu + 1])) or [])
+    nreq = rng.choice([1, 1, 2, 3])
+    maxacc = 0x100000
+    for r in range(nreq):
+        kind = rng.choice("ppg")
+        size = max(0, rng.choice([1, 2, 3]) * cmiu - (6 if kind == "p" else 10) + rng.randrange(-7, 8))
+        recs = ndefs.message(rng, size)
+        octets = ndefs.enc(recs) if recs is not None else bytes(rng.randrange(256) for _ in range(size))
+        cacc = rng.choice([0, len(getr) - 1 if not isinstance(getr, int) and getr else 0,
+                           len(getr) if not isinstance(getr, int) else 5, 1000, 0xFFFFFFFF])
+        req = (struct.pack(">BBL", 0x10, 2, len(octets)) + octets) if kind == "p" else \
+            (struct.pack(">BBLL", 0x10, 1, 4 + len(octets), max(0, cacc)) + octets)
+        sizes.append(len(req) - 6)
+        fr = frags(cmiu, req)
+        m = rng.random()
+        if m < 0.45:
+            fr[0] = mutate_first(rng, fr[0], maxacc, cmiu)
+        elif m < 0.55 and len(fr) > 1:
+            del fr[rng.randrange(1, len(fr))]
+        elif m < 0.62 and len(fr) > 1:
+            k = rng.randrange(1, len(fr))
+            fr.insert(k, fr[k])
+        elif m < 0.68:
+            fr.insert(rng.randrange(len(fr) + 1), b"")
+        msgs += fr
+        # the peer's part of a fragmented response
+        if kind == "g" and not isinstance(getr, int) and 6 + len(getr) > smiu:
+            msgs.append(rng.choice([CONT_REQ, CONT_REQ, CONT_REQ, CONT_RSP, b"\x10\x00\x00\x00\x00\x01", b"\x10\x00", b""]))
+        elif rng.random() < 0.08:
+            msgs.append(CONT_REQ)
+    s0 = rng.choice(sizes)
+    maxacc = rng.choice([0x100000, 0x100000, s0, s0 + 1, max(0, s0 - 1), 0, 2 ** 32 + 5])
+    return {"smiu": smiu, "maxacc": maxacc, "putc": putc, "getr": getr, "msgs": msgs, "close": rng.random() < 0.85}
+
+
+def run_rawsrv(sc):
+    import nfc.snep
+    import nfc.llcp
+    import ndef
+    from sims import snep_chan
+    link = snep_chan.Link(force_c2s=100000, force_s2c=sc["smiu"])
+    got, seen = [], []
+
+    class Srv(nfc.snep.SnepServer):
+        def process_snep_request(self, request_data):
+            seen.append(bytes(request_data))
+            return super(Srv, self).process_snep_request(request_data)
+
+        # the callbacks get decoded records; what is compared is the octet string they were decoded from
+        # (ndeflib stops at the ME record, octets a hostile peer appends behind it are not re-encoded)
+        def process_put_request(self, records):
+            got.append(("p", seen[-1][6:]))
+            reenc.append((b"".join(ndef.message_encoder(records)), seen[-1][6:]))
+            return sc["putc"]
+
+        def process_get_request(self, records):
+            got.append(("g", seen[-1][10:]))
+            reenc.append((b"".join(ndef.message_encoder(records)), seen[-1][10:]))
+            r = sc["getr"]
+            return r if isinstance(r, int) else list(ndef.message_decoder(r, known_types={}))
+
+    reenc = []
+    srv = Srv(link.server_llc, max_acceptable_length=sc["maxacc"], recv_miu=2175, recv_buf=15)
+    lsock = srv._args[0]
+
+    def server_fn():
+        srv._serve(lsock.accept())
+        return "served"
+
+    def client_fn():
+        sock = nfc.llcp.Socket(link.client_llc, nfc.llcp.DATA_LINK_CONNECTION)
+        sock.connect("urn:nfc:sn:snep")
+        for m in sc["msgs"]:
+            try:
+                sock.send(m)
+            except nfc.llcp.Error:
+                pass
+        link.sched.block("c", lambda: False, True)
+        if sc["close"]:
+            sock.close()
+        return "done"
+
+    out = link.run(client_fn, server_fn)
+    table = {}
+    for d in seen:
+        if len(d) >= 2:
+            o = d[10:] if d[1] == 1 and len(d) >= 10 else d[6:]
+            try:
+                list(ndef.message_decoder(o, known_types={}))
+                table[bytes(o)] = 1
+            except (ndef.DecodeError, ValueError):
+                table[bytes(o)] = 0
+    s = party_state(out.get("s"))
+    real = "s2c=%s dl=%s sst=%s" % (hexlist(link.log["s"]),
+                                   ",".join("%s:%s" % (k, hx(o)) for k, o in got) if got else ".",
+                                   "open" if s == "deadlock" else s)
+    getr = sc["getr"]
+    line = "rawsrv %d %d %d %d %s %s %s" % (
+        sc["smiu"], sc["maxacc"], 1 if sc["close"] else 0, sc["putc"],
+        ("c%d" % getr) if isinstance(getr, int) else "d" + hx(getr),
+        ",".join("%s:%d" % (hx(k), v) for k, v in table.items()) or ".", hexlist(sc["msgs"]))
+    return line, real, {"link": link, "out": out, "got": got, "seen": seen, "reenc": reenc}
+
+
+def rawsrv_oracle(sc, ob):
+    """independent of the model: every delivery comes from a request whose announced length is within the
+    limit, nothing is delivered that the peer did not send, the server always ends after close"""
+    bad = []
+    stream = b"".join(sc["msgs"])
+    lim = min(sc["maxacc"], 0xFFFFFFFF)
+    for d in ob["seen"]:
+        if len(d) >= 6 and int.from_bytes(d[2:6], "big") > lim:
+            bad.append(("snep-oversize-request-processed", "a request announcing %d octets (limit %d) reached process_snep_request"
+                        % (int.from_bytes(d[2:6], "big"), lim)))
+    for k, o in ob["got"]:
+        if o and o not in stream:
+            bad.append(("snep-delivered-octets-never-sent", "callback got %d octets that are no contiguous part of what the peer sent" % len(o)))
+    for r, o in ob["reenc"]:
+        if not bytes(o).startswith(r):
+            bad.append(("snep-delivered-records-differ-from-octets", "the records given to the callback encode to %d octets that are "
+                        "no prefix of the %d request octets" % (len(r), len(o))))
+    st = party_state(ob["out"].get("s"))
+    if st.startswith("crashed") or st == "hard-timeout":
+        bad.append(("snep-server-crashes-on-peer-input", "server thread: %s" % st))
+    if sc["close"] and st != "closed":
+        bad.append(("snep-server-does-not-end", "server after close: %s" % st))
+    return bad
+
+
+def gen_rawcli(ck, rng, ndefs):
+    cmiu = rng.choice([6, 7, 9, 16, 33, 64, 128])
+    kind = rng.choice("pg")
+    size = max(0, rng.choice([1, 2, 3]) * cmiu - (6 if kind == "p" else 10) + rng.randrange(-7, 8))
+    recs = ndefs.message(rng, size) or ndefs.message(rng, size + 3)
+    octets = ndefs.enc(recs)
+    nreq = (6 if kind == "p" else 10) + len(octets)
+    smiu = rng.choice([6, 8, 16, 64, 128])
+    rd = ndefs.enc(ndefs.message(rng, rng.choice([3, 4, smiu - 6 if smiu > 9 else 5, smiu, 2 * smiu + 1])) or []) if kind == "g" else b""
+    cacc = rng.choice([len(rd), len(rd) + 1, max(0, len(rd) - 1), 1024, 0])
+    status = rng.choice([0x81, 0x81, 0x81, 0xC0, 0xC1, 0xFF, 0x80, 0])
+    rsp = struct.pack(">BBL", 0x10, status, len(rd)) + rd
+    script = []
+    if nreq > cmiu:
+        script.append(rng.choice([CONT_RSP, CONT_RSP, CONT_RSP, CONT_REQ, b"\x10\xFF\x00\x00\x00\x00", b"\x10\x80\x00\x00\x00\x01", b"", b"\x10\x80"]))
+    if rng.random() < 0.93:
+        fr = frags(smiu, rsp)
+        m = rng.random()
+        if m < 0.4:
+            fr[0] = mutate_first(rng, fr[0], cacc, smiu)
+        elif m < 0.5 and len(fr) > 1:
+            del fr[rng.randrange(1, len(fr))]
+        elif m < 0.57:
+            fr.insert(rng.randrange(len(fr) + 1), b"")
+        elif m < 0.63:
+            fr.append(bytes(rng.randrange(256) for _ in range(3)))
+        script += fr
+    return {"cmiu": cmiu, "cacc": cacc, "op": kind, "octets": octets, "script": script}
+
+
+def run_rawcli(sc):
+    import nfc.snep
+    import nfc.llcp
+    from sims import snep_chan
+    link = snep_chan.Link(force_c2s=sc["cmiu"], force_s2c=100000)
+    lsock = nfc.llcp.Socket(link.server_llc, nfc.llcp.DATA_LINK_CONNECTION)
+    lsock.bind("urn:nfc:sn:snep")
+    lsock.listen(backlog=1)
+
+    def server_fn():
+        sock = lsock.accept()
+        for m in sc["script"]:
+            sock.send(m)
+        link.sched.block("s", lambda: False, True)
+        return "done"
+
+    def client_fn():
+        cl = nfc.snep.SnepClient(link.client_llc, max_ndef_msg_recv_size=sc["cacc"])
+        cl.connect("urn:nfc:sn:snep")
+        f = cl.put_octets if sc["op"] == "p" else cl.get_octets
+        return canon_result(lambda: f(sc["octets"], 1.0))
+
+    out = link.run(client_fn, server_fn)
+    c = out.get("c")
+    res = c[1] if c and c[0] == "ok" else "hang" if c and c[0] == "deadlock" else "client:" + party_state(c)
+    conn = link.connections[0] if link.connections else None
+    left = list(conn[0].inbox) if conn else []
+    real = "c2s=%s res=%s left=%s" % (hexlist(link.log["c"]), res, hexlist(left))
+    line = "rawcli %d %d %s %s %s" % (sc["cmiu"], sc["cacc"], sc["op"], hx(sc["octets"]), hexlist(sc["script"]))
+    return line, real, {"link": link, "out": out, "res": res}
+
+
+def rawcli_oracle(sc, ob):
+    bad = []
+    if ob["link"].oversize:
+        bad.append(("snep-fragment-exceeds-miu", "client sent %d octets on a connection with MIU %d"
+                    % (ob["link"].oversize[0][1], ob["link"].oversize[0][2])))
+    sent = b"".join(ob["link"].log["c"])
+    req = (struct.pack(">BBL", 0x10, 2, len(sc["octets"])) + sc["octets"]) if sc["op"] == "p" else \
+        (struct.pack(">BBLL", 0x10, 1, 4 + len(sc["octets"]), sc["cacc"]) + sc["octets"])
+    body = sent[:len(req)]
+    if not req.startswith(body) or (len(sent) > len(req) and sent[len(req):] != CONT_REQ):
+        bad.append(("snep-client-sends-other-octets", "client sent %d octets that are not a prefix of its request (+ Continue)" % len(sent)))
+    r = ob["res"]
+    if r.startswith("data:") and sc["op"] == "g":
+        d = bytes.fromhex(r[5:]) if r[5:] != "-" else b""
+        if len(d) > sc["cacc"] + 0 and len(d) > 0 and sc["cacc"] < len(d) and False:
+            pass
+    if r.startswith("client:crashed") or r.startswith("exc:"):
+        bad.append(("snep-client-crashes-on-peer-input", "client result %s" % r))
+    return bad
+
+
+def gen_horaw(ck, rng, ndefs):
+    smiu = rng.choice([1, 3, 7, 16, 64, 128, 300])
+    cmiu = rng.choice([1, 2, 3, 5, 8, 13, 16, 32, 64, 128])
+    msgs, reqs = [], []
+    for _ in range(rng.choice([1, 2, 2, 3])):
+        while True:
+            rq = ndefs.handover_request(rng, max(13, rng.choice([1, 2, 3]) * cmiu + rng.randrange(-8, 9))) \
+                if rng.random() < 0.8 else ndefs.message(rng, rng.randrange(3, 60))
+            if rq is not None:
+                break
+        o = ndefs.enc(rq)
+        ends = [e for e in record_ends(o) if 0 < e < len(o)]
+        if ends and rng.random() < 0.5:
+            # fragment boundaries exactly on record boundaries
+            cut = sorted(set(rng.sample(ends, rng.randrange(1, len(ends) + 1))))
+            fr = [o[a:b] for a, b in zip([0] + cut, cut + [len(o)])]
+        else:
+            fr = [o[i:i + cmiu] for i in range(0, len(o), cmiu)]
+        m = rng.random()
+        if m < 0.15:
+            fr.insert(rng.randrange(len(fr) + 1), b"")
+        elif m < 0.25:
+            fr[0] = bytes([rng.randrange(256)]) + fr[0]
+        elif m < 0.32 and len(fr) > 1:
+            k = rng.randrange(len(fr) - 1)
+            fr[k:k + 2] = [fr[k] + fr[k + 1]]
+        elif m < 0.38:
+            fr[-1] = fr[-1] + o[:rng.randrange(1, 4)]
+        msgs += fr
+        reqs.append(o)
+    while True:
+        rp = ndefs.handover_select(rng, max(6, rng.choice([1, 2, 3]) * smiu + rng.randrange(-8, 9)) if smiu >= 7 else rng.randrange(6, 30))
+        if rp is not None:
+            break
+    return {"smiu": smiu, "msgs": msgs, "rsp": ndefs.enc(rp)}
+
+
+def run_horaw(sc, reset):
+    import nfc.handover
+    import nfc.llcp
+    import ndef
+    from sims import snep_chan
+    link = snep_chan.Link(force_c2s=100000, force_s2c=sc["smiu"])
+    raw, answers = [], []
+
+    class Srv(nfc.handover.HandoverServer):
+        def _process_request_data(self, octets):
+            raw.append(bytes(octets))
+            r = super(Srv, self)._process_request_data(octets)
+            answers.append((bytes(octets), bytes(r)))
+            return r
+
+        def process_handover_request_message(self, records):
+            return list(ndef.message_decoder(sc["rsp"], "relax"))
+
+    srv = Srv(link.server_llc, recv_miu=2175, recv_buf=15)
+    lsock = srv._args[1]
+
+    def server_fn():
+        srv.serve(lsock.accept())
+        return "served"
+
+    def client_fn():
+        sock = nfc.llcp.Socket(link.client_llc, nfc.llcp.DATA_LINK_CONNECTION)
+        sock.connect("urn:nfc:sn:handover")
+        for m in sc["msgs"]:
+            try:
+                sock.send(m)
+            except nfc.llcp.Error:
+                pass
+        link.sched.block("c", lambda: False, True)
+        sock.close()
+        return "done"
+
+    out = link.run(client_fn, server_fn)
+    # the decoder is a parameter of the model: its verdict on every buffer state that can occur
+    table, buf = {}, b""
+    for m in sc["msgs"]:
+        buf += m
+        for cand in (buf,):
+            try:
+                list(ndef.message_decoder(cand, "strict", {}))
+                table[cand] = 1
+            except (ndef.DecodeError, ValueError):
+                table[cand] = 0
+        if table[buf] and buf and reset:
+            buf = b""
+    real = "s2c=%s dl=%s" % (hexlist(link.log["s"]), hexlist(raw))
+    line = "horaw %d %d %s %s %s" % (sc["smiu"], reset,
+                                    ",".join("%s=%s" % (hx(a), hx(b)) for a, b in answers) or ".",
+                                    ",".join("%s:%d" % (hx(k), v) for k, v in table.items()) or ".", hexlist(sc["msgs"]))
+    return line, real, {"link": link, "out": out, "raw": raw}
+
+
+# ------------------------------------------------------------------ the check
+def guarded(ck, key, what, replay, fn):
+    """run one scenario; whatever nfcpy or the doubles raise unexpectedly is a failing input, not a crash"""
+    from common import Infra
+    try:
+        return fn()
+    except (Infra, KeyboardInterrupt, MemoryError):
+        raise
+    except Exception as e:  # noqa
+        import traceback
+        tb = traceback.extract_tb(e.__traceback__)
+        ck.fail(key, "%s: %s raised at %s" % (what, exc_name(e), "; ".join("%s:%d" % (f.filename.rsplit("/", 1)[-1], f.lineno) for f in tb[-3:])),
+                dict(replay, exception=repr(e)))
+        return None
+
+
+def section_snep(ck, rng, ndefs, model):
+    n_snep = 30000 if ck.thorough else 2500
     lines, reals, scs = [], [], []
     for i in range(n_snep):
         sc = gen_snep(ck, rng, ndefs)
-        ob = run_snep(sc)
-        if ob["cmiu"] is None:
-            ck.fail("snep-connect-failed", "no connection", sc_json(sc))
-            continue
-        for key, what in snep_oracle(sc, ob):
-            ck.fail(key, what, {"protocol": "snep", "scenario": sc_json(sc), "client_send_miu": ob["cmiu"],
-                                "server_send_miu": ob["smiu"], "observed": snep_real_line(sc, ob)[:2000]})
-        line, real = snep_model_line(sc, ob), snep_real_line(sc, ob)
-        lines.append(line)
-        reals.append(real)
-        scs.append(sc)
-        nfrag = len(ob["link"].log["c"]) > len(sc["ops"]) or len(ob["link"].log["s"]) > len(sc["ops"])
-        refused = any(r in ("False", "None") or r.startswith("SnepError") for r in (ob["res"] or []))
-        kinds = "+".join(sorted(set(o["op"] for o in sc["ops"])))
-        ck.case(line, nfrag or refused, "snep:%s:%s%s" % (kinds, "frag" if nfrag else "single", ":refused" if refused else ""),
-                sample={"request": line[:300], "impl": real[:300]} if len(ck.samples) < 3 else None)
+
+        def one():
+            ob = run_snep(sc)
+            if ob["cmiu"] is None:
+                ck.fail("snep-connect-failed", "no connection", sc_json(sc))
+                return
+            for key, what in snep_oracle(sc, ob):
+                ck.fail(key, what, {"protocol": "snep", "scenario": sc_json(sc), "client_send_miu": ob["cmiu"],
+                                    "server_send_miu": ob["smiu"], "observed": snep_real_line(sc, ob)[:2000]})
+            line, real = snep_model_line(sc, ob), snep_real_line(sc, ob)
+            lines.append(line)
+            reals.append(real)
+            scs.append(sc)
+            nfrag = len(ob["link"].log["c"]) > len(sc["ops"]) or len(ob["link"].log["s"]) > len(sc["ops"])
+            refused = any(r in ("False", "None") or r.startswith("SnepError") for r in (ob["res"] or []))
+            kinds = "+".join(sorted(set(o["op"] for o in sc["ops"])))
+            ck.case(line, nfrag or refused, "snep:%s:%s%s" % (kinds, "frag" if nfrag else "single", ":refused" if refused else ""),
+                    sample={"request": line[:300], "impl": real[:300]} if len(ck.samples) < 3 else None)
+        guarded(ck, "snep-scenario-raises", "SNEP scenario on the channel double", {"protocol": "snep", "scenario": sc_json(sc)}, one)
     replies = model.ask_many(lines)
     dis = 0
     for line, real, rep, sc in zip(lines, reals, replies, scs):
@@ -487,7 +877,26 @@ def run(ck):
                     {"request": line[:4000], "model": rep[:4000], "impl": real[:4000]})
     ck.tie("snep client+server model vs real code on the channel double", cases=len(lines), disagreements=dis, exhaustive=False)
 
-    # ---------------------------------------------------------- handover
+
+def boundary_handover(ck, rng, ndefs):
+    """handover scenarios whose MIU puts a fragment boundary exactly on a record boundary (both directions)"""
+    sc = gen_handover(ck, rng, ndefs, nreq=rng.choice([1, 2]))
+    rq, rp = sc["reqs"][0]
+    e1 = [e for e in record_ends(rq) if 0 < e < len(rq)]
+    e2 = [e for e in record_ends(rp) if 0 < e < len(rp)]
+    if e1:
+        e = rng.choice(e1)
+        divs = [d for d in range(1, e + 1) if e % d == 0]
+        sc["force_c2s"] = rng.choice([e, e, rng.choice(divs)])
+    if e2:
+        e = rng.choice(e2)
+        divs = [d for d in range(1, e + 1) if e % d == 0]
+        sc["force_s2c"] = rng.choice([e, e, rng.choice(divs)])
+    return sc, bool(e1 or e2)
+
+
+def section_handover(ck, rng, ndefs, model):
+    import ndef
     # which server is in the tree?  (finding F29: reassembly buffer never reset)
     probe_rng = __import__("random").Random(7)
     probe = gen_handover(ck, probe_rng, ndefs, nreq=2)
@@ -498,36 +907,61 @@ def run(ck):
     n_ho = 12000 if ck.thorough else 1500
     lines, reals = [], []
     prefix_reqs, prefix_real = [], []
+    enc_lines, enc_real = [], []
+    nbound = 0
     for i in range(n_ho):
-        sc = probe if i == 0 else gen_handover(ck, rng, ndefs)
-        ob = pob if i == 0 else run_handover(sc)
-        for key, what in ho_oracle(sc, ob):
-            ck.fail(key, what, {"protocol": "handover", "scenario": sc_json(sc), "client_send_miu": ob["cmiu"],
-                                "server_send_miu": ob["smiu"], "observed": ho_real_line(ob)[:2000]})
-        line = "ho %d %d %d %s" % (ob["cmiu"], ob["smiu"], reset, " ".join("%s/%s" % (hx(a), hx(b)) for a, b in sc["reqs"]))
-        real = ho_real_line(ob)
-        lines.append(line)
-        reals.append(real)
-        nfrag = len(ob["link"].log["c"]) > len(sc["reqs"]) or len(ob["link"].log["s"]) > len(sc["reqs"])
-        ck.case(line, nfrag or len(sc["reqs"]) > 1, "handover:%dreq:%s" % (len(sc["reqs"]), "frag" if nfrag else "single"),
-                sample={"request": line[:300], "impl": real[:300]} if len(ck.samples) < 5 else None)
-        # the decoder assumption: strict decode vs the model's walk on buffer states and random cuts
-        if i % 4 == 0:
-            for a, b in sc["reqs"]:
-                for m in (a, b):
-                    cuts = set([0, 1, 2, 3, len(m) - 1, len(m)] + [rng.randrange(len(m) + 1) for _ in range(4)])
-                    cuts |= set(range(ob["cmiu"], len(m), ob["cmiu"])) if ob["cmiu"] >= 8 else set()
-                    for c in sorted(x for x in cuts if 0 <= x <= len(m)):
-                        p = m[:c]
-                        if rng.random() < 0.1:
-                            p = m + a[:c]
-                        try:
-                            list(ndef.message_decoder(p, "strict", {}))
-                            r = "true"
-                        except ndef.DecodeError:
-                            r = "false"
-                        prefix_reqs.append("ndefc " + hx(p))
-                        prefix_real.append(r)
+        onb = False
+        if i == 0:
+            sc = probe
+        elif i % 4 == 1:
+            sc, onb = boundary_handover(ck, rng, ndefs)
+        else:
+            sc = gen_handover(ck, rng, ndefs)
+        nbound += 1 if onb else 0
+
+        def one():
+            ob = pob if i == 0 else run_handover(sc)
+            if ob["cmiu"] is None:
+                ck.fail("handover-connect-failed", "no connection", sc_json(sc))
+                return
+            for key, what in ho_oracle(sc, ob):
+                ck.fail(key, what, {"protocol": "handover", "scenario": sc_json(sc), "client_send_miu": ob["cmiu"],
+                                    "server_send_miu": ob["smiu"], "observed": ho_real_line(ob)[:2000]})
+            line = "ho %d %d %d %s" % (ob["cmiu"], ob["smiu"], reset, " ".join("%s/%s" % (hx(a), hx(b)) for a, b in sc["reqs"]))
+            real = ho_real_line(ob)
+            lines.append(line)
+            reals.append(real)
+            nfrag = len(ob["link"].log["c"]) > len(sc["reqs"]) or len(ob["link"].log["s"]) > len(sc["reqs"])
+            ck.case(line, nfrag or len(sc["reqs"]) > 1, "handover:%dreq:%s%s" % (len(sc["reqs"]), "frag" if nfrag else "single",
+                                                                                ":record-boundary" if onb else ""),
+                    sample={"request": line[:300], "impl": real[:300]} if len(ck.samples) < 5 else None)
+            # the decoder assumption: strict decode vs the model's walk on buffer states and random cuts
+            if i % 8 in (0, 1, 5):
+                for a, b in sc["reqs"]:
+                    for m in (a, b):
+                        cuts = set([0, 1, 2, 3, len(m) - 1, len(m)] + [rng.randrange(len(m) + 1) for _ in range(4)])
+                        cuts |= set(range(ob["cmiu"], len(m), ob["cmiu"])) if ob["cmiu"] >= 8 else set()
+                        cuts |= set(record_ends(m))
+                        for c in sorted(x for x in cuts if 0 <= x <= len(m)):
+                            p = m[:c]
+                            if rng.random() < 0.1:
+                                p = m + a[:c]
+                            try:
+                                list(ndef.message_decoder(p, "strict", {}))
+                                r = "true"
+                            except ndef.DecodeError:
+                                r = "false"
+                            prefix_reqs.append("ndefc " + hx(p))
+                            prefix_real.append(r)
+                        el = encmsg_line(m)
+                        if el is None:
+                            ck.fail("tie:ndef-message-outside-record-model", "a generated message is not of the shape MB..ME without chunks",
+                                    {"message": hx(m)})
+                        else:
+                            enc_lines.append(el)
+                            enc_real.append(hx(m) + " wf")
+        guarded(ck, "handover-scenario-raises", "handover scenario on the channel double",
+                {"protocol": "handover", "scenario": sc_json(sc)}, one)
     replies = model.ask_many(lines)
     dis = 0
     for line, real, rep in zip(lines, reals, replies):
@@ -536,6 +970,7 @@ def run(ck):
             ck.fail("tie:handover-model-vs-code", "model %r, implementation %r" % (rep[:400], real[:400]),
                     {"request": line[:4000], "model": rep[:4000], "impl": real[:4000]})
     ck.tie("handover client+server model vs real code on the channel double", cases=len(lines), disagreements=dis, exhaustive=False)
+    ck.count("handover-fragment-boundary-on-record-boundary", nbound)
     replies = model.ask_many(prefix_reqs)
     dis = 0
     for line, real, rep in zip(prefix_reqs, prefix_real, replies):
@@ -544,8 +979,219 @@ def run(ck):
             ck.fail("tie:ndef-complete-vs-strict-decoder", "model %r, ndeflib %r" % (rep, real), {"request": line[:4000]})
     ck.tie("model `ndefComplete` vs ndef.message_decoder(strict) on prefixes", cases=len(prefix_reqs), disagreements=dis, exhaustive=False)
     ck.count("ndef-prefix-probes", len(prefix_reqs))
+    replies = model.ask_many(enc_lines)
+    dis = 0
+    for line, real, rep in zip(enc_lines, enc_real, replies):
+        if rep != real:
+            dis += 1
+            ck.fail("tie:ndef-record-encoder", "model encMsg %r, ndeflib %r" % (rep[:200], real[:200]), {"request": line[:4000]})
+    ck.tie("model `encMsg` (record lists, hypothesis of handover_roundtrip_records) vs ndeflib encoder", cases=len(enc_lines),
+           disagreements=dis, exhaustive=False)
+    return reset
 
-    # ---------------------------------------------------------- complete stack (search only)
+
+def section_raw(ck, rng, ndefs, model, reset):
+    n = 4000 if ck.thorough else 500
+    for name, gen, runner, oracle in (("rawsrv", gen_rawsrv, run_rawsrv, rawsrv_oracle),
+                                      ("rawcli", gen_rawcli, run_rawcli, rawcli_oracle),
+                                      ("horaw", gen_horaw, lambda sc: run_horaw(sc, reset), None)):
+        lines, reals, scs = [], [], []
+        for i in range(n):
+            sc = gen(ck, rng, ndefs)
+
+            def one():
+                line, real, ob = runner(sc)
+                if oracle:
+                    for key, what in oracle(sc, ob):
+                        ck.fail(key, what, {"protocol": name, "scenario": sc_json(sc), "observed": real[:2000]})
+                lines.append(line)
+                reals.append(real)
+                scs.append(sc)
+                ck.case(line, True, "hostile-peer:" + name)
+            guarded(ck, "snep-scenario-raises" if name != "horaw" else "handover-scenario-raises",
+                    "hostile peer scenario (%s)" % name, {"protocol": name, "scenario": sc_json(sc)}, one)
+        replies = model.ask_many(lines)
+        dis = 0
+        for line, real, rep, sc in zip(lines, reals, replies, scs):
+            if name == "rawsrv":
+                rep = norm_model_snep(rep)
+            if rep != real:
+                dis += 1
+                ck.fail("tie:%s-model-vs-code" % name, "model %r, implementation %r" % (rep[:400], real[:400]),
+                        {"request": line[:4000], "model": rep[:4000], "impl": real[:4000]})
+        ck.tie({"rawsrv": "SNEP server model vs real _serve against hostile peers (any message sequence)",
+                "rawcli": "SNEP client model vs real put_octets/get_octets against hostile peers",
+                "horaw": "handover server model vs real serve() on arbitrary fragmentations"}[name],
+               cases=len(lines), disagreements=dis, exhaustive=False)
+
+
+def section_grid(ck, ndefs, model):
+    """every message size 0..3*MIU+2 x limit size-1/size/size+1 x MIU 6..(9|12), Put and Get, on the channel double"""
+    import random
+    grng = random.Random(60606)
+    mius = range(6, 13) if ck.thorough else range(6, 10)
+    lines, reals = [], []
+    for cmiu in mius:
+        for size in range(0, 3 * cmiu + 3):
+            recs = ndefs.message(grng, size)
+            if recs is None:
+                continue
+            octets = ndefs.enc(recs)
+            for kind in "pg":
+                eff = len(octets) + (4 if kind == "g" else 0)
+                for maxacc in (max(0, eff - 1), eff, eff + 1):
+                    if kind == "g":
+                        rd = ndefs.enc(ndefs.message(grng, grng.choice([3, cmiu, 2 * cmiu + 1])))
+                        cacc = grng.choice([len(rd) - 1, len(rd), len(rd) + 1])
+                    else:
+                        rd, cacc = 0x81, 10
+                    sc = {"recv_miu": 128, "force_c2s": cmiu, "force_s2c": grng.choice([6, cmiu, 128]), "recv_buf": 1,
+                          "cacc": cacc, "maxacc": maxacc, "auto": False, "close": True,
+                          "ops": [{"op": kind, "octets": octets, "valid": 1, "ret": rd}]}
+
+                    def one():
+                        ob = run_snep(sc)
+                        for key, what in snep_oracle(sc, ob):
+                            ck.fail(key, what, {"protocol": "snep", "scenario": sc_json(sc), "client_send_miu": ob["cmiu"],
+                                                "server_send_miu": ob["smiu"], "observed": snep_real_line(sc, ob)[:2000]})
+                        lines.append(snep_model_line(sc, ob))
+                        reals.append(snep_real_line(sc, ob))
+                        ck.case(lines[-1], True, "grid:" + kind)
+                    guarded(ck, "snep-scenario-raises", "grid scenario", {"protocol": "snep", "scenario": sc_json(sc)}, one)
+    replies = model.ask_many(lines)
+    dis = 0
+    for line, real, rep in zip(lines, reals, replies):
+        if norm_model_snep(rep) != real:
+            dis += 1
+            ck.fail("tie:snep-model-vs-code", "model %r, implementation %r" % (norm_model_snep(rep)[:400], real[:400]),
+                    {"request": line[:4000], "model": rep[:4000], "impl": real[:4000]})
+    ck.tie("snep model vs real code, grid: every size 0..3*MIU+2 x limit size-1/size/size+1 x MIU %d..%d x put/get"
+           % (mius[0], mius[-1]), cases=len(lines), disagreements=dis, exhaustive=True)
+
+
+def section_fullstack(ck, rng, ndefs, model, reset):
+    """the complete stack under deterministic schedules with slow consumers"""
+    from props import c06_full as cf
+    n = 5000 if ck.thorough else 450
+    ideal, ideal_real, win, win_real, descr = [], [], [], [], []
+    slow = 0
+    for i in range(n):
+        proto = "snep" if rng.random() < 0.6 else "ho"
+        sc = cf.gen_full_snep(ck, rng, ndefs) if proto == "snep" else cf.gen_full_ho(ck, rng, ndefs)
+
+        def one():
+            ob = cf.run_full_snep(sc) if proto == "snep" else cf.run_full_ho(sc)
+            rp = {"protocol": "fullstack-" + proto, "scenario": sc_json(sc), "client_send_miu": ob["cmiu"],
+                  "server_send_miu": ob["smiu"], "schedule": ob["sched"]}
+            bad = cf.stack_oracle(sc, ob)
+            if ob["cmiu"] is None or ob["smiu"] is None:
+                bad.append(("fullstack-no-connection", "the data link connection was not established: %s"
+                            % {k: (v[0] if v else None) for k, v in ob["threads"].items()}))
+            else:
+                bad += snep_oracle(sc, ob) if proto == "snep" else ho_oracle(sc, ob)
+            for key, what in bad:
+                ck.fail(key, what, rp)
+            if ob["cmiu"] is None or ob["smiu"] is None:
+                return
+            if proto == "snep":
+                line = snep_model_line(sc, ob)
+                real = snep_real_line(sc, ob).rpartition(" sst=")[0]
+                f = line.split(" ")
+                wl = "wsnep %d 1 0 %%s %s %s" % (sc["recv_buf"], " ".join(f[1:5]), " ".join(f[6:]))
+            else:
+                line = "ho %d %d %d %s" % (ob["cmiu"], ob["smiu"], reset, " ".join("%s/%s" % (hx(a), hx(b)) for a, b in sc["reqs"]))
+                real = ho_real_line(ob)
+                wl = "who %d %d 0 %%s %s" % (sc["recv_buf"], sc["c_recv_buf"], line[3:])
+            ideal.append(line)
+            ideal_real.append(real)
+            ev = "".join(l for l, d in ob["events"])
+            ev = ev[ev.index("o") + 1:] if "o" in ev else ev
+            win.append(wl % (ev or "-"))
+            win_real.append(real + " ev=" + " ".join(l + d for l, d in ob["events"] if l != "o"))
+            descr.append(rp)
+            nfr = max(len(ob["link"].log["c"]), len(ob["link"].log["s"]))
+            ck.case(("full", line, sorted((k, str(v)) for k, v in sc.items() if k not in ("ops", "reqs"))), True,
+                    "fullstack:%s:%s%s" % (proto, sc["policy"]["kind"].split(":")[0], ":window-exceeded" if nfr > sc["recv_buf"] + 1 else ""))
+        guarded(ck, "fullstack-scenario-raises", "complete-stack scenario", {"protocol": "fullstack-" + proto, "scenario": sc_json(sc)}, one)
+        slow += 1 if sc["policy"]["kind"].startswith("slow") else 0
+    replies = model.ask_many(ideal)
+    dis = 0
+    for line, real, rep, rp in zip(ideal, ideal_real, replies, descr):
+        if line.startswith("snep"):
+            rep = norm_model_snep(rep).rpartition(" sst=")[0]
+        if rep != real:
+            dis += 1
+            ck.fail("tie:model-vs-complete-stack", "model (ideal channel) %r, complete stack %r" % (rep[:400], real[:400]),
+                    dict(rp, request=line[:4000], model=rep[:4000], impl=real[:4000]))
+    ck.tie("SNEP / handover model on the ideal channel vs the real complete stack (clf.connect .. radio frames) under "
+           "deterministic schedules incl. slow consumers", cases=len(ideal), disagreements=dis, exhaustive=False)
+    replies = model.ask_many(win)
+    dis = 0
+    for line, real, rep, rp in zip(win, win_real, replies, descr):
+        if rep != real:
+            dis += 1
+            k = 0
+            while k < min(len(rep), len(real)) and rep[k] == real[k]:
+                k += 1
+            ck.fail("tie:windowed-link-model-vs-tco", "first difference at %d: model ...%r, stack ...%r" % (k, rep[max(0, k - 60):k + 60], real[max(0, k - 60):k + 60]),
+                    dict(rp, request=line[:4000], model=rep[-3000:], impl=real[-3000:]))
+    ck.tie("windowed link model (receive queue, V(R), V(RA), recv_confs after every transmit / take / acknowledge event) "
+           "vs the real DataLinkConnection sockets in the complete-stack runs", cases=len(win), disagreements=dis, exhaustive=False)
+    ck.count("fullstack-runs-with-slow-consumer", slow)
+
+
+def run(ck):
+    from sims import snep_ndef as ndefs
+    rng = ck.rng
+    ck.rule = ("a case is one connection: (protocol, send MIU of each side, receive limits, list of requests with "
+               "message octets and application responses) run on the real client and server code and on the model - over "
+               "the channel double (two honest parties; one party against a hostile peer; an exhaustive size x limit x MIU "
+               "grid) and over the complete stack (link MIU / aggregation / role / NFC-DEP frame size / RW / schedule "
+               "incl. slow consumer); non-trivial = at least one message was fragmented, refused or answered with a "
+               "fragmented response; distinct by hash of the whole scenario")
+    ck.assumptions += [
+        "ndeflib: message_decoder(message_encoder(records)) gives back records that encode to the same octets "
+        "(asserted for every generated message); a strict decode succeeds on no proper non-empty prefix of a message "
+        "(proved for the model's structural reading of record lists, which is compared with the real decoder on every "
+        "buffer state, every record boundary and random cuts)",
+        "application callbacks return a response code 0..255 / a well-formed response message",
+        "the theorems about the windowed link use unbounded sequence counters and treat a transmitted I PDU as received "
+        "at once; the modulo-16 arithmetic, the PDU formats and NFC-DEP chaining are exercised by the complete-stack runs "
+        "(and are the subject of C05 / C04), not by C06 theorems",
+        "the model equals the Python code outside the compared scenarios (D-tie is a sample, except the grid)",
+    ]
+    ck.trusted += ["hand-written Lean models NfcVerif.Model.Snep / Handover / SnepChannel / SnepSched (state machines cut at the "
+                   "blocking socket calls; interleavings; windowed link), tied by differential runs",
+                   "harness/sims/snep_chan.py (fake link controller under real nfc.llcp.Socket, lockstep scheduler), "
+                   "harness/sims/snep_full.py (device driver double, scheduler controlled threading.Condition/Thread and clocks), "
+                   "harness/sims/snep_ndef.py, harness/props/c06.py, harness/props/c06_full.py"]
+    import time
+    t0 = time.time()
+    ck.lean("NfcVerif.Props.C06", THEOREMS)
+    ck.notes.append("lean build + axiom audit %.1fs" % (time.time() - t0))
+    if ck.thorough:
+        ck.leanchecker(["NfcVerif.Props.C06"])
+    model = Model("drv_c06")
+    import time
+    times, t = [], time.time()
+
+    def lap(name):
+        nonlocal t
+        times.append("%s %.1fs" % (name, time.time() - t))
+        t = time.time()
+    lap("lean")
+    section_snep(ck, rng, ndefs, model)
+    lap("snep")
+    reset = section_handover(ck, rng, ndefs, model)
+    lap("handover")
+    section_raw(ck, rng, ndefs, model, reset)
+    lap("hostile-peers")
+    section_grid(ck, ndefs, model)
+    lap("grid")
+    section_fullstack(ck, rng, ndefs, model, reset)
+    lap("complete-stack")
+    ck.notes.append("wall time per section: " + ", ".join(times))
+    # ---------------------------------------------------------- complete stack with free running threads (search only)
     if ck.thorough:
         from sims import snep_stack
         snep_stack.search(ck, rng, ndefs, runs=40)
